@@ -42,9 +42,9 @@ CHECKS = {
  "C11": ("exploration", "deterministic simulation (fault-free, one client) of the exported datafile API on the simulated disk, both back-ends in lock-step; sizes observed at the disk seam",
          "Start offset x end distance grid (thorough: complete sweep of 32768 start offsets x 19 end distances), varint widths, staged flushes, reopen; round-trip, positions, sizes, logical==physical, byte-identical back-ends.",
          TB + " No schedule/clock/fault dimension (stated honestly).", "DESIGN.md 4 C11"),
- "C12": ("fault_enumeration", "deterministic simulation with stored-byte fault injection: all single-bit flips of small trees, seeded header-biased flips, overwrites, truncations, garbage on copies of a closed database; Open/Get/Fold/sequential reader judged",
+ "C12": ("fault_enumeration", "deterministic simulation with stored-byte fault injection: all single-bit flips of small trees, seeded header-biased flips, overwrites, truncations, garbage and transplanted whole records on copies of a closed database, and (standard I/O) on the files of an open one; Open/Get/Fold/sequential reader judged",
          "Right value or error, or a whole earlier prefix state (indistinguishable from a torn tail); never foreign bytes, unknown keys, panics or hangs.",
-         TB + " One known finding (truncation of an older file exactly at a record boundary) is recorded in known_findings.json.", "DESIGN.md 4 C12"),
+         TB + " Three known findings of one family (a well-formed log that lacks or repeats records: truncation of an older file exactly at a record boundary; a same-length record transplanted where no key check can tell) are recorded in known_findings.json.", "DESIGN.md 4 C12"),
  "C13": ("exploration", SEQ + "unsynced-bytes invariants of the journalled disk model evaluated at every return (Always / Threshold / Sync batch / Sync() / Close() / rotation); a fifth of the runs: several concurrent callers under the seeded scheduler, judged per call on the journal",
          "Every SyncStrategy x BytesPerSync x BatchOptions.Sync x FileIOType over rotating, batching, restarting sequences.",
          TB + " For mmap, flushed means covered by a later msync.", "DESIGN.md 4 C13"),
